@@ -330,6 +330,25 @@ func afOps(thorough bool) []afOp {
 			m.sc = []*BV{uintArg("value", 8, 8, false)}
 			return true
 		}})
+	// the two clock setters: presence guard and frame only (the six bytes of
+	// the field's own window may take any value here; the value written is
+	// C04's encode/window rules)
+	pcrArg := func() map[string]Val { return map[string]Val{"PCR": uintArg("PCR", 64, 64, false)} }
+	ops = append(ops,
+		afOp{anchor: "packet:(*AdaptationField).SetPCR", what: "(value)", args: pcrArg, apply: func(m *afModel, s afShape) bool {
+			if m.pcr == nil {
+				return false
+			}
+			m.pcr = unset(6)
+			return true
+		}},
+		afOp{anchor: "packet:(*AdaptationField).SetOPCR", what: "(value)", args: pcrArg, apply: func(m *afModel, s afShape) bool {
+			if m.opcr == nil {
+				return false
+			}
+			m.opcr = unset(6)
+			return true
+		}})
 	ks := []int{0, 1, 3, 5, 6}
 	if thorough {
 		ks = []int{0, 1, 2, 3, 5, 6, 7, 12, 13, 40}
